@@ -19,6 +19,7 @@ import z3
 from . import mir as M
 from . import interp as I
 from . import models
+from . import ratfun
 
 VERIF = os.path.dirname(os.path.dirname(os.path.abspath(__file__)))
 REPO = os.environ.get('VERIF_REPO', '/repo')
@@ -217,7 +218,7 @@ class Run:
 
     # -- the deciding step
     def prove(self, name, hyps, neg_goal, timeout=60, expect='unsat', cross=None, sample=None, logic='ALL',
-              cross_timeout=None, on_sat='suspect'):
+              cross_timeout=None, on_sat='suspect', clear_div=True):
         """Decide  hyps /\\ neg_goal.  expect='unsat': the obligation holds iff unsat.
         expect='sat': vacuity / mutation witness, must be sat.
         Returns (verdict, model or None)."""
@@ -225,6 +226,11 @@ class Run:
         if isinstance(neg_goal, bool):
             neg_goal = z3.BoolVal(neg_goal)
         assertions = [z3.BoolVal(a) if isinstance(a, bool) else a for a in assertions] + [neg_goal]
+        cleared = False
+        if clear_div and any(ratfun.has_div(a) for a in assertions):
+            # polynomial form (divisors are non-zero by the separately discharged side conditions)
+            assertions = [ratfun.clear(a) for a in assertions]
+            cleared = True
         s = z3.Solver()
         s.set('timeout', int(timeout * 1000))
         for a in assertions:
@@ -237,6 +243,8 @@ class Run:
         model = s.model() if r == z3.sat else None
         rec = {'name': name, 'expect': expect, 'verdict': verdict, 'solver': 'z3-5.1.0 (python API)',
                'solver_s': round(dt, 3)}
+        if cleared:
+            rec['denominators_cleared'] = True
         # cross-check with independent solver processes on the SMT-LIB2 text
         do_cross = self.cross if cross is None else cross
         if do_cross:
